@@ -18,56 +18,13 @@ func newEval(c *core.Ctx) *fde.Eval {
 		memo = map[*ssa.Function]int{}
 		c.Memo["purefn"] = memo
 	}
-	var pure func(f *ssa.Function) bool
-	pure = func(f *ssa.Function) bool {
-		switch memo[f] {
-		case 1:
-			return true
-		case 2, 3:
-			return false
-		}
-		memo[f] = 3
-		ok := core.InMod(f) && f.Blocks != nil
-		for _, b := range f.Blocks {
-			if !ok {
-				break
-			}
-			for _, in := range b.Instrs {
-				switch x := in.(type) {
-				case *ssa.BinOp, *ssa.Phi, *ssa.If, *ssa.Jump, *ssa.Return, *ssa.Convert, *ssa.ChangeType, *ssa.DebugRef:
-				case *ssa.UnOp:
-					if x.Op == token.MUL {
-						ia, isIA := x.X.(*ssa.IndexAddr)
-						if !isIA {
-							ok = false
-							break
-						}
-						g, isG := ia.X.(*ssa.Global)
-						if !isG || tb[g] == nil {
-							ok = false
-						}
-					}
-				case *ssa.IndexAddr:
-					g, isG := x.X.(*ssa.Global)
-					if !isG || tb[g] == nil {
-						ok = false
-					}
-				case *ssa.Call:
-					h := x.Call.StaticCallee()
-					if h == nil || !pure(h) {
-						ok = false
-					}
-				default:
-					ok = false
-				}
-			}
-		}
-		if ok {
-			memo[f] = 1
-		} else {
-			memo[f] = 2
-		}
-		return ok
+	// foldable: any module function with a body of moderate size. The evaluator
+	// ignores side effects and fails on anything it would need from memory, so
+	// no purity analysis is needed for soundness of a successful fold.
+	pure := func(f *ssa.Function) bool {
+		return core.InMod(f) && f.Blocks != nil && len(f.Blocks) <= 64
 	}
+	_ = memo
+	_ = token.MUL
 	return &fde.Eval{Env: fde.Env{}, Tables: tb, Pure: pure}
 }
